@@ -550,7 +550,7 @@ def main() -> None:  # noqa: C901
 
     def signature(prog: loadvc.LoadProgram) -> str:
         return repr((prog.insert[X].sql(dialect="duckdb"), [(c, e.sql(), w.sql() if w is not None else None) for c, e, w in prog.updates],
-                     [c.sql() for c in prog.temporal_cases], prog.not_null.get(X)))
+                     [c.sql() for c in prog.temporal_cases], prog.not_null.get(X), [s[0] for s in prog.steps]))
     sig_of = {k: signature(p) for k, p in programs.items()}
     rep: Dict[Tuple[str, str], Tuple[str, str, str, bool]] = {}
     for k in programs:
